@@ -13,6 +13,7 @@ B_badhdr2 == << Blk("ok", 2, 2, 0), Blk("bad", 1, 1, 0) >>
 B_direct  == << Blk("ok", 2, 2, 0), Blk("direct", 2, 2, 0), Blk("ok", 1, 1, 0) >>
 B_direrr  == << Blk("ok", 1, 2, 0), Blk("direct", 2, 2, 2) >>
 B_empty   == << Blk("ok", 1, 0, 0), Blk("ok", 1, 1, 0), Blk("ok", 1, 0, 0) >>
+B_sim4    == << Blk("ok", 2, 2, 0), Blk("ok", 3, 2, 0), Blk("ok", 1, 3, 3), Blk("ok", 2, 1, 0) >>
 B_ok4     == << Blk("ok", 2, 2, 0), Blk("ok", 1, 1, 0), Blk("ok", 1, 1, 0), Blk("ok", 2, 2, 0) >>
 
 CallBound == m.calls <= MaxCalls
